@@ -130,7 +130,10 @@ def coq_make(targets, timeout=3000, keep_going=False):
                                timeout=timeout, text=True)
             return p.returncode == 0, p.stdout
         except subprocess.TimeoutExpired as e:
-            return False, (e.stdout or '') + '\nTIMEOUT'
+            out = e.stdout or ''
+            if isinstance(out, bytes):
+                out = out.decode('utf8', 'replace')
+            return False, out + '\nTIMEOUT'
 
 
 def coq_dep_closure(vfile):
@@ -686,18 +689,40 @@ def _run_check(pid, tier, seed, replay=None):
     return 1 if nviol else 0
 
 
+def claimed_props():
+    out = []
+    for f in sorted(glob.glob(os.path.join(VERIF, 'props', 'C*.py'))):
+        pid = os.path.basename(f)[:-3]
+        try:
+            sp = load_plugin(pid).SPEC
+        except Exception:
+            continue
+        if sp.get('claimed', True):
+            out.append((pid, sp))
+    return out
+
+
 def setup():
+    """Build everything the claimed checks need: their Coq targets (full .vo build) and their harness commands."""
     t0 = time.time()
-    ok, out = coq_make(None, timeout=6000, keep_going=True)
-    log('coq build: %s (%.0fs)' % ('ok' if ok else 'FAILED', time.time() - t0))
+    rc = 0
+    props = claimed_props()
+    targets = []
+    for pid, sp in props:
+        d = sp.get('coq_dir', pid)
+        for f in ('Properties', 'Check'):
+            if os.path.exists(os.path.join(COQ, 'theories', d, f + '.v')):
+                targets.append('theories/%s/%s.vo' % (d, f))
+    ok, out = coq_make(targets, timeout=10800, keep_going=True)
+    log('coq build of %d targets for %d claimed properties: %s (%.0fs)' % (len(targets), len(props), 'ok' if ok else 'FAILED', time.time() - t0))
     if not ok:
         log(out[-3000:])
-    rc = 0 if ok else 1
-    shutil.copyfile(os.path.join(REPO, 'go.sum'), os.path.join(HARNESS, 'go.sum'))
-    cmds = sorted(os.listdir(os.path.join(HARNESS, 'cmd')))
+        rc = 1
     t1 = time.time()
-    os.makedirs(os.path.join(HARNESS, 'bin'), exist_ok=True)
+    cmds = sorted({sp.get('harness') for _, sp in props if sp.get('harness')} | {'hwarm'})
     for c in cmds:
+        if not os.path.isdir(os.path.join(HARNESS, 'cmd', c)):
+            continue
         okb, blog = go_build(c)
         if not okb:
             log('go build %s FAILED:\n%s' % (c, blog[-2000:]))
